@@ -15,6 +15,8 @@ import (
 func init() {
 	em := "internal/backends/compiler_wat/wir/instruction_emitter.go"
 	register(&Property{ID: "C01", Run: runC01, Mutants: []Mutant{
+		{Name: "second byte of an i64 constant taken from bit 9", File: "internal/backends/compiler_wat/wir/value_basic.go", Old: "\t\tsi := uint64(int64(i))\n\t\tb[0] = byte(si & 0xFF)\n\t\tb[1] = byte((si >> 8) & 0xFF)", New: "\t\tsi := uint64(int64(i))\n\t\tb[0] = byte(si & 0xFF)\n\t\tb[1] = byte((si >> 9) & 0xFF)", Expect: "const-bytes :: I64: byte layout"},
+		{Name: "third byte of an f32 constant written twice", File: "internal/backends/compiler_wat/wir/value_basic.go", Old: "\t\tsi := math.Float32bits(float32(f))\n\t\tb[0] = byte(si & 0xFF)\n\t\tb[1] = byte((si >> 8) & 0xFF)\n\t\tb[2] = byte((si >> 16) & 0xFF)\n\t\tb[3] = byte((si >> 24) & 0xFF)", New: "\t\tsi := math.Float32bits(float32(f))\n\t\tb[0] = byte(si & 0xFF)\n\t\tb[1] = byte((si >> 8) & 0xFF)\n\t\tb[2] = byte((si >> 16) & 0xFF)\n\t\tb[2] = byte((si >> 24) & 0xFF)", Expect: "const-bytes :: F32: byte layout"},
 		{Name: "string ordering decodes runes again", File: "waroot/src/runtime/string.wa", Old: "\tfor i := 0; i < n; i++ {\n\t\tif x[i] < y[i] {\n\t\t\treturn -1\n\t\t} else if x[i] > y[i] {\n\t\t\treturn 1\n\t\t}\n\t}\n", New: "\ti1 := stringToIter(x)\n\ti2 := stringToIter(y)\n\tfor i := 0; i < n; i++ {\n\t\t_, _, v1, p1 := next_rune(i1)\n\t\ti1.pos = p1\n\t\t_, _, v2, p2 := next_rune(i2)\n\t\ti2.pos = p2\n\t\tif v1 < v2 {\n\t\t\treturn -1\n\t\t} else if v1 > v2 {\n\t\t\treturn 1\n\t\t}\n\t}\n", Expect: "string-order-bytewise"},
 		{Name: "labelled continue of a three-clause for goes to the loop head", File: "internal/ssa/builder.go", Old: "\t\tlabel._break = done\n\t\tlabel._continue = cont\n", New: "\t\tlabel._break = done\n\t\tlabel._continue = loop\n", Expect: "labelled-jump-targets"},
 		{Name: "range loop label breaks to the loop block", File: "internal/ssa/builder.go", Old: "\t\tlabel._break = done\n\t\tlabel._continue = loop\n", New: "\t\tlabel._break = loop\n\t\tlabel._continue = loop\n", Expect: "labelled-jump-targets"},
@@ -611,6 +613,16 @@ func runC01(c *Ctx) {
 					}
 				}
 				_ = parseCalls
+				// the bytes are laid out little-endian: b[k] = byte((v >> 8k) & 0xFF) for every k below the size
+				if size > 0 {
+					probs := littleEndianPacking(wir.TypesInfo, arm.Body, size)
+					var tns []string
+					for _, t := range arm.Types {
+						tns = append(tns, namedTypeName(t))
+					}
+					c.Check(len(probs) == 0, "const-bytes", strings.Join(tns, ",")+": byte layout", p.Pos(arm.Clause.Pos()), fmt.Sprintf("b[k] = byte(v >> 8k) for k < %d", size),
+						"the static-data bytes of a constant of kind "+strings.Join(tns, ",")+" are not its little-endian representation: "+strings.Join(probs, "; ")+" — every global or composite literal of that kind is initialised to another value")
+				}
 				for _, t := range arm.Types {
 					tn := namedTypeName(t)
 					k, ok := waKinds[tn]
